@@ -18,7 +18,7 @@ def cases(rng, tier):
     n = 1500 if tier == 'quick' else 12000
     return C.build_cases(rng, n, calls_per=3, style='kw', tag='c03a') + C.build_cases(rng, n // 3, calls_per=2, style=None, tag='c03b') \
         + C.scenario_cases(rng, n // 8, style='kw', tag='c03sc') + C.scenario_cases(rng, n // 16, tag='c03sd') \
-        + R.reentrant_cases(rng, n // 6, style='kw', tag='c03re') \
+        + R.reentrant_cases(rng, n // 6, style='kw', tag='c03re') + R.wrapsof_cases(rng, n // 10, style='kw', tag='c03wo') \
         + G.gen_cases(rng, tier)           # generator functions: yield / send / return / throw / close interactions (GenWrap model)
 
 
